@@ -13,10 +13,11 @@ EXPLANATION = (
     "lookup, duplicates across the internal/external clock lists are rejected before any change, new entries get index state.rows(), the "
     "number of appended/removed rows equals ClockInfo::SIZE / LinkInfo::SIZE for both the state vector and the covariance with the same "
     "start index, both update_indices shift exactly the indices greater than the removed one by the removed size, and removal updates "
-    "both lists with the same (index, size)."
+    "both lists with the same (index, size); (R4) the index maps of splice_vec / splice_square / extend_vec / extend copy every remaining "
+    "entry from its old position (shifted by the removed length past the removed range) and place new values only in the appended block."
 )
 NOT_DECIDED = [
-    "that Matrix::extend/extend_vec/splice_vec/splice_square leave the other entries' values unchanged (matrix index arithmetic) is value-level and not decided",
+    "Matrix::new / new_vec (that the closure is evaluated once per cell of the stated size) and the storage back ends are not decided; R4 decides the index maps handed to them",
     "the numeric effect of measurements and time progression on other clocks (covariance coupling is intended) is not decided",
     "LinkFilter-level bookkeeping of per-link noise estimators is not decided",
 ]
@@ -209,5 +210,66 @@ def r3(ctx):
         ctx.check('ClockInfo::%s' % fn, rets == [want], 'returns %s' % rets, sample=rets)
 
 
-RULES = [r1, r2, r3]
-FLOORS = {'C42-R1': 25, 'C42-R2': 9, 'C42-R3': 45}
+def closure_cases(cl):
+    """[(returned value string, sorted guard strings)] of an index-map closure."""
+    return sorted((v, tuple(sorted(cl.guard_strings(s.bb)))) for s, v in ret_assigns(cl))
+
+
+def r4(ctx):
+    ctx.rule('C42-R4', 'index maps of the resize operations keep every other entry: splice_vec(start, length) maps new row r to old row r (r < start) or r + length (r >= start); '
+             'splice_square applies that map to rows and columns with the same start/length; extend_vec / extend copy old entries at unchanged indices, put the new values at '
+             '(r - old_rows[, c - old_cols]) and zeros in the off-diagonal blocks; result sizes are old -/+ length')
+    P = ctx.P
+    MX = A + 'matrix::Matrix::'
+    # splice_vec
+    b = P.body(MX + 'splice_vec')
+    oks = [(s, v) for s, v in ret_assigns(b) if v.startswith('Result::Ok')]
+    ctx.check('splice_vec|Ok', len(oks) == 1 and oks[0][1] == 'Result::Ok{0: Matrix::new_vec((Matrix::rows(self) - length), closure:matrix::{impl#1}::splice_vec::{closure#0})}', 'returns %s' % [v for _, v in oks], sample=len(oks))
+    for s, v in oks:
+        ctx.guard(b, s, 'in-range', fact_cmp('Le', r'^\(start \+ length\)$', r'^self\.rows$'), key='splice_vec|Ok|start+length<=rows')
+        ctx.guard(b, s, 'vector', fact_cmp('Eq', r'^self\.cols$', r'^1$'), key='splice_vec|Ok|is-vector')
+    cs = closure_cases(one(P.closures_of(b), 'splice_vec closure'))
+    want = sorted([('Matrix::index(self, (row, 0))', ('(row < start)',)), ('Matrix::index(self, ((row + length), 0))', ('(row >= start)',))])
+    ctx.check('splice_vec|index-map', cs == want, 'index map %s' % cs, sample=[c[0] for c in cs])
+    # splice_square
+    b = P.body(MX + 'splice_square')
+    oks = [(s, v) for s, v in ret_assigns(b) if v.startswith('Result::Ok')]
+    ctx.check('splice_square|Ok', len(oks) == 1 and oks[0][1] == 'Result::Ok{0: Matrix::new((self.rows - length), (self.cols - length), closure:matrix::{impl#1}::splice_square::{closure#0})}', 'returns %s' % [v for _, v in oks], sample=len(oks))
+    for s, v in oks:
+        ctx.guard(b, s, 'in-range', fact_cmp('Le', r'^\(start \+ length\)$', r'^self\.rows$'), key='splice_square|Ok|start+length<=rows')
+        ctx.guard(b, s, 'square', fact_cmp('Eq', r'^self\.rows$', r'^self\.cols$'), key='splice_square|Ok|is-square')
+    cl = one(P.closures_of(b), 'splice_square closure')
+    rets = [v for _, v in ret_assigns(cl)]
+    ctx.check('splice_square|reads', rets == ['Matrix::index(self, (row{(row + length) | row}, col{(col + length) | col}))'], 'reads %s' % rets, sample=rets)
+    for nm in ('row', 'col'):
+        idx = [i for i, l in enumerate(cl.locals) if l.get('name') == nm and cl.defs().get(i)]
+        got = sorted((S(cl._def_term(d, ())), tuple(cl.guard_strings(d[0]))) for i in idx for d in cl.defs()[i])
+        want = sorted([(nm, ('(%s < start)' % nm,)), ('(%s + length)' % nm, ('(%s >= start)' % nm,))])
+        ctx.check('splice_square|%s-map' % nm, got == want, '%s map %s' % (nm, got), sample=[g[0] for g in got])
+    # extend_vec
+    b = P.body(MX + 'extend_vec')
+    oks = [(s, v) for s, v in ret_assigns(b) if v.startswith('Result::Ok')]
+    ctx.check('extend_vec|Ok', len(oks) == 1 and oks[0][1] == 'Result::Ok{0: Matrix::new_vec((Matrix::rows(self) + ROWS), closure:matrix::{impl#1}::extend_vec::{closure#0})}', 'returns %s' % [v for _, v in oks], sample=len(oks))
+    cs = closure_cases(one(P.closures_of(b), 'extend_vec closure'))
+    want = sorted([('Matrix::index(self, (row, 0))', ('(row < original_rows)',)), ('values[(row - original_rows)]', ('(row >= original_rows)',))])
+    ctx.check('extend_vec|index-map', cs == want, 'index map %s' % cs, sample=[c[0] for c in cs])
+    # extend
+    b = P.body(MX + 'extend')
+    rets = [v for _, v in ret_assigns(b)]
+    ctx.check('extend|result', rets == ['Matrix::new((Matrix::rows(self) + ROWS), (Matrix::cols(self) + COLS), closure:matrix::{impl#1}::extend::{closure#0})'], 'returns %s' % rets, sample=rets)
+    cl = one(P.closures_of(b), 'extend closure')
+    cs = closure_cases(cl)
+    want = sorted([('Matrix::index(self, (row, col))', ('(col < original_cols)', '(row < original_rows)')), ('data[(row - original_rows)][(col - original_cols)]', ('(col >= original_cols)', '(row >= original_rows)')), ('0.0', ())])
+    ctx.check('extend|index-map', cs == want, 'index map %s' % cs, sample=[c[0] for c in cs])
+    for cb, names in ((P.body(MX + 'extend_vec'), ('original_rows',)), (P.body(MX + 'extend'), ('original_rows', 'original_cols'))):
+        for nm in names:
+            v = [S(cb.local_term(i)) for i, l in enumerate(cb.locals) if l.get('name') == nm]
+            ctx.check('%s|%s' % (cb.npath.split('::')[-1], nm), v == ['Matrix::%s(self)' % nm.split('_')[1]], '%s = %s' % (nm, v), sample=v)
+    # Index / IndexMut address the same storage cell for (row, col)
+    ix = [x for x in P.bodies.values() if x.raw['promoted'] is None and re.search(r'statime_algo::matrix::Matrix<.*> as core::ops::(index::)?Index(Mut)?<\(usize, usize\)>>::index(_mut)?$', x.path)]
+    forms = sorted({re.sub(r'index_mut', 'index', re.sub(r'IndexMut', 'Index', v)) for x in ix for _, v in ret_assigns(x)})
+    ctx.check('Index|IndexMut|agree', len(ix) == 2 and len(forms) == 1, 'Index and IndexMut address cells as %s' % forms, sample=forms)
+
+
+RULES = [r1, r2, r3, r4]
+FLOORS = {'C42-R1': 25, 'C42-R2': 9, 'C42-R3': 45, 'C42-R4': 14}
